@@ -88,6 +88,15 @@ def run(ck):
                                        [("comp1", "comp2"), ("comp2", "comp1"), ("comp1", "can1"), ("can1", "comp2")],
                                        range(2, 40, 4 if quick else 1), range(2, 26, 5 if quick else 1),
                                        facts={"op": op})
+    # ... two inputs that both decide the outcome (failure / cancellation) completing at the same instant: the one
+    # observed first wins, also when the other lands between the decision and the resolution of the output
+    for op in ['zip', 'sequence']:
+        for kinds in ((3, 4), (4, 3), (3, 3)):
+            params = {"op": op, "inputs": [{"kind": kinds[0], "at": 100}, {"kind": kinds[1], "at": 100}], "cancel_at": None,
+                      "horizon": 800}
+            swept += _core.phase_tasks("combinators", params, [("comp1", "comp2"), ("comp2", "comp1")],
+                                       range(2, 40, 2 if quick else 1), [10000] if quick else [10000, 5, 10, 20],
+                                       facts={"op": op})
     ck.run_and_validate(swept, TRACE, nontrivial=lambda t, r: True)
     ck.assumptions += [
         "a completion linearises between its InputSetCall and InputSetRet, and for the combinator not before "
